@@ -31,7 +31,7 @@ def apply_variant(src_root: str, variant: Dict[str, Any], dst_root: str) -> Opti
     """Copy the package and apply the edit(s).  Returns an error string or None."""
     shutil.copytree(os.path.join(src_root, PKG), os.path.join(dst_root, PKG),
                     ignore=shutil.ignore_patterns("__pycache__", "*.pyc"))
-    edits = variant.get("edits") or [dict(file=variant["file"], old=variant["old"], new=variant["new"])]
+    edits = variant.get("edits") or [dict(file=variant["file"], old=variant["old"], new=variant["new"], nth=variant.get("nth"), all=variant.get("all"))]
     for ed in edits:
         path = os.path.join(dst_root, PKG, ed["file"])
         if not os.path.exists(path):
